@@ -1544,8 +1544,11 @@ def tags(case, impl, model):
     if model and "out" in model:
         for s in model["out"].get("sites", []):
             out.append("site-shape:" + s["shape"])
-        for c in model["out"].get("cmp", []):
-            out.append("problem-template:" + ("typedpy" if c.get("templateOk") else "other"))
+        # only where the compared texts ARE constructor messages (not phase-one texts of deserialization)
+        if case["mode"] == "construct" or (case["mode"] == "deser" and not model["out"].get("phase1")):
+            for s, c in zip(model["out"].get("sites", []), model["out"].get("cmp", [])):
+                out.append("problem-template:" + ("typedpy" if c.get("templateOk") else
+                                                  ("embedded-message(inline structure)" if s.get("shape") == "plain" else "other")))
     return out
 
 
